@@ -956,17 +956,18 @@ class ExecutionController:
                 # Already done, no need to think more.
                 return
 
-            if stmt_id in self.plan_id_set:
-                # Already in plan, no need to think more.
-                return
-
             if stmt_id in early_plan:
                 return
 
+            if stmt_id in self.plan_id_set:
+                # Planned for later, but needed now (by request, or as a
+                # dependency of a requested statement): pull it forward,
+                # so that it is neither run after what needs it nor twice.
+                self.plan.remove(stmt_id)
+                self.plan_id_set.remove(stmt_id)
+
             for dep_id in stmt.depends_on:
                 add_with_deps(id_to_stmt[dep_id])
-
-            assert stmt_id not in self.plan_id_set
 
             early_plan.append(stmt_id)
 
